@@ -48,7 +48,8 @@ def slot_worker(slot, ids):
         cross = {}
         env = dict(os.environ, VERIF_REPO=wt, VERIF_NO_EVIDENCE="1", VERIF_SKIP_MIRI="1")
         own_only = bool(os.environ.get("XEVAL_OWN"))     # only the property's own check, recorded under detected_by
-        for c in ([meta["property"]] if own_only else CHECKS):
+        only = [c for c in os.environ.get("XEVAL_CHECKS", "").split(",") if c]      # XEVAL_CHECKS=C01,C19: a subset of the matrix
+        for c in ([meta["property"]] if own_only else (only or CHECKS)):
             t0 = time.time()
             rc, out = sh([os.path.join(VERIF, "check"), c, "--tier", "quick"], cwd=VERIF, env=env, timeout=3600)
             viol = [l for l in out.splitlines() if l.startswith("VIOLATION")]
@@ -59,7 +60,7 @@ def slot_worker(slot, ids):
             last = out.strip().splitlines()[-1] if out.strip() else ""
             meta.setdefault("detected_by", {})["%s/quick" % meta["property"]] = dict(cross[meta["property"]], summary=last[:200], machinery=HEAD)
         else:
-            meta["cross"] = cross
+            meta.setdefault("cross", {}).update(cross)
         json.dump(meta, open(mp, "w"), indent=1)
         print(sid, "fired:", [c for c in cross if cross[c]["violations"]], flush=True)
     sh(["git", "-C", "/repo", "worktree", "remove", "--force", wt])
